@@ -231,3 +231,84 @@ Qed.
 (** the result of ORDER BY is sorted on the keys (ascending or descending per key, NULL smallest) *)
 Theorem sort_rows_sorted ks rows : StronglySorted (fun a b => row_le ks a b = true) (sort_rows ks rows).
 Proof. induction rows as [|r rows IH]; cbn; [constructor|]. apply insert_sorted_sorted, IH. Qed.
+
+(** ** C02: the operators compute what SQL prescribes *)
+Theorem filter_spec cond c : concat (x_filter cond c) = filter (holds cond) (concat c).
+Proof. unfold x_filter. induction c as [|ch c IH]; cbn; [reflexivity|]. rewrite filter_app, IH. reflexivity. Qed.
+
+Theorem nljoin_inner_spec cond nr L R out row : x_nljoin JInner cond nr L R = Some out ->
+  (In row out <-> exists l r, In l (concat L) /\ In r (concat R) /\ row = l ++ r /\ holds cond row = true).
+Proof.
+  unfold x_nljoin, nl_pairs. intros H. inversion H; subst. rewrite filter_In, in_flat_map. split.
+  - intros [(r & Hr & Hm) Hh]. apply in_map_iff in Hm as (l & <- & Hl). exists l, r. auto.
+  - intros (l & r & Hl & Hr & -> & Hh). split; [|exact Hh]. exists r. split; [exact Hr|]. apply in_map_iff. exists l. split; [reflexivity|exact Hl].
+Qed.
+
+(** LEFT OUTER JOIN: every left row either has a partner or appears padded with NULLs *)
+Theorem left_join_preserves_left_rows cond nr L R out l : x_nljoin JLeft cond nr L R = Some out ->
+  In l (concat L) ->
+  (exists r, In r (concat R) /\ In (l ++ r) out /\ holds cond (l ++ r) = true) \/ In (l ++ nulls nr) out.
+Proof.
+  unfold x_nljoin, nl_pairs. intros H Hl. inversion H; subst.
+  destruct (existsb (fun r => holds cond (l ++ r)) (concat R)) eqn:E.
+  - left. apply existsb_exists in E as (r & Hr & Hh). exists r. split; [exact Hr|]. split; [|exact Hh].
+    apply in_or_app. left. apply filter_In. split; [|exact Hh]. apply in_flat_map. exists r. split; [exact Hr|]. apply in_map_iff. exists l. split; [reflexivity|exact Hl].
+  - right. apply in_or_app. right. apply in_map_iff. exists l. split; [reflexivity|]. apply filter_In. split; [exact Hl|]. rewrite E. reflexivity.
+Qed.
+
+(** NULL never equals (or compares with) anything: a comparison with a NULL operand is NULL, and a
+    NULL condition does not pass a filter or a join *)
+Theorem null_comparison_is_null f a b : a = DNull \/ b = DNull -> cmp3 f a b = DNull.
+Proof. intros [->| ->]; [reflexivity|]. destruct a; reflexivity. Qed.
+Theorem null_condition_does_not_hold e r : sx_eval e r = DNull -> holds e r = false.
+Proof. unfold holds. intros ->. reflexivity. Qed.
+
+(** aggregates skip NULLs; on empty input COUNT is 0 and SUM / MIN / MAX are NULL *)
+Theorem agg_empty :
+  (forall e, agg_rows (ACount e) [] = DI32 0) /\ agg_rows ARowCount [] = DI32 0 /\
+  (forall e, agg_rows (ACountDistinct e) [] = DI32 0) /\
+  (forall e, agg_rows (ASum e) [] = DNull) /\ (forall e, agg_rows (AMin e) [] = DNull) /\
+  (forall e, agg_rows (AMax e) [] = DNull).
+Proof. repeat split; reflexivity. Qed.
+
+Lemma agg_fold_skip_null a (Ha : match a with ASum _ | AMin _ | AMax _ | ACountDistinct _ => True | _ => False end) :
+  forall rows s, fold_left (fun s r => agg_append a s (agg_arg a r)) rows s
+               = fold_left (fun s r => agg_append a s (agg_arg a r)) (filter (fun r => negb (is_null (agg_arg a r))) rows) s.
+Proof.
+  induction rows as [|r rows IH]; intros s; [reflexivity|]. cbn [fold_left filter].
+  destruct (is_null (agg_arg a r)) eqn:E; cbn [negb].
+  - rewrite <- IH. f_equal. destruct (agg_arg a r); try discriminate.
+    destruct a; try contradiction; destruct s as [v|seen]; cbn; try reflexivity; destruct v; reflexivity.
+  - cbn [fold_left]. apply IH.
+Qed.
+Theorem aggregates_skip_nulls a rows :
+  match a with ASum _ | AMin _ | AMax _ | ACountDistinct _ => True | _ => False end ->
+  agg_rows a rows = agg_rows a (filter (fun r => negb (is_null (agg_arg a r))) rows).
+Proof. intros Ha. unfold agg_rows. rewrite (agg_fold_skip_null a Ha). reflexivity. Qed.
+
+Lemma count_fold e : forall rows n, 
+  fold_left (fun s r => agg_append (ACount e) s (agg_arg (ACount e) r)) rows (AV (DI32 n))
+  = AV (DI32 (n + Z.of_nat (length (filter (fun r => negb (is_null (sx_eval e r))) rows)))).
+Proof.
+  induction rows as [|r rows IH]; intros n; cbn [fold_left filter length]; [rewrite Z.add_0_r; reflexivity|].
+  cbn [agg_append agg_arg dv_add]. destruct (is_null (sx_eval e r)); cbn [negb length]; rewrite IH; f_equal; f_equal; lia.
+Qed.
+Theorem count_counts_non_null e rows :
+  agg_rows (ACount e) rows = DI32 (Z.of_nat (length (filter (fun r => negb (is_null (sx_eval e r))) rows))).
+Proof. unfold agg_rows. cbn [agg_init]. rewrite count_fold. reflexivity. Qed.
+
+(** three-valued AND / OR / NOT on scalar expressions: the SQL truth tables *)
+Theorem sx_and_3vl a b r : sx_eval (SAnd a b) r =
+  match sx_eval a r, sx_eval b r with
+  | DBool false, _ | _, DBool false => DBool false
+  | DBool true, DBool true => DBool true
+  | _, _ => DNull
+  end.
+Proof. reflexivity. Qed.
+Theorem sx_or_3vl a b r : sx_eval (SOr a b) r =
+  match sx_eval a r, sx_eval b r with
+  | DBool true, _ | _, DBool true => DBool true
+  | DBool false, DBool false => DBool false
+  | _, _ => DNull
+  end.
+Proof. reflexivity. Qed.
